@@ -143,7 +143,9 @@ unsafe fn level_swap<M: Manager>(
                         children
                     }
                     node => {
-                        debug_assert!(node.level() > lower_no);
+                        // Level numbers in nodes may be stale (`_pre`), so we
+                        // cannot compare against `lower_no` here.
+                        debug_assert_ne!(node.level(), upper_no_pre);
                         // The child is below the lower level, so we always have
                         // this child
                         (0..M::InnerNode::ARITY).map(|_| c.borrowed()).collect()
